@@ -94,4 +94,16 @@ PROPS = {
         "assumptions": ["the chain-level precondition 'four 0xAB training bytes follow every start' is C01/C10's link model, here streams with fewer preamble bytes are included and judged by the same specification"],
         "spec_ops": {"spec.c07.stream": "fr.stream"},
     },
+    "C08": {
+        "thm": "SameVerif.Thm.C08",
+        "suites": ["asmseq", "asmscen"],
+        "spec_filter": r"^spec\.asm c08 ",
+        "technique": "Lean 4 invariants over all assembler operation histories (no EndOfMessage is ever left pending; accept never sets a deadline beyond now+hold; a due result is released by the next poll) + differential correspondence of the Assembler incl. private state + per-tick-polled scenario sweeps judged by a delay oracle",
+        "level_text": "Proved in Lean over every state and every operation of the assembler model: an EndOfMessage is output by the very call that assembles its establishing burst and is never left pending; every pending result is due no later than its acceptance + MAX_INTERBURST_SYMBOLS (= documented 1.311 s, from the generated constants) and any poll at or after the deadline outputs it and empties the slot, so nothing is held for ever. "
+                      "The model is tied to the real Assembler through the hook (outputs and private state after every call) and on thousands of scripted histories with a poll at every idle tick; the oracle checks EOM-at-burst-tick and SOM <= last carrying burst + hold on a quiet channel.",
+        "level_note": "Ticks are symbol-synchronizer outputs; the conversion to seconds/samples and the burst-termination latency are sampled at signal level (C01/C14 suites), not proved. One open known finding (F5) is reported as KNOWN-FINDING.",
+        "rule": "asmseq: random op sequences (bursts: header A/B, NNNN, corrupted, with disallowed tails, empty, arbitrary; time steps 0, 1, hold-1..hold+1, hist-1..hist+1, random) with output AND private state (history, pending, previous with deadlines) compared after every call. asmscen: scripted burst histories with assemble at each burst-end tick, no polls inside link-busy windows, a poll at EVERY other tick: (i) C02 grid = 64 presence masks x {absent, corrupted} x header-to-trailer gaps (1 s .. beyond the history window, both edges of hold and history) x pause {0.95,1.0,1.05 s} x header length class (37..252 bytes); (ii) sequences of 1..3 transmissions (header A, header B, trailer) with masks and inter-transmission gaps; (iii) the same message twice with the gap swept across the duplicate window edge; (iv) trailer then a lone foreign burst. Non-trivial = every scenario/op; distinct by request text.",
+        "exhaustive": False,
+        "assumptions": ["the receiver polls the assembler on every symbol tick whose link state is NoCarrier (C13/C09 receiver model)", "tick rate ~ 520.83 Hz (front-end assumption FE4, sampled)"],
+    },
 }
